@@ -412,6 +412,9 @@ def main():
         models[pid] = resp["model"]
         for lang6, step in zip(ALL_LANGS, resp["steps"]):
             lang = SHORT.get(lang6, lang6)
+            if "error" in step:
+                stats["%s refused with an error" % lang] += 1
+                continue
             if "panic" in step:
                 stats["%s panics" % lang] += 1
                 deviate(lang, "panic: " + step["panic"], pid, "*")
